@@ -29,7 +29,7 @@ CASE_TIMEOUT = 300
 CALCS = ["runpp", "runpp_bfsw", "rundcpp", "runopp", "rundcopp", "runpp_3ph", "calc_sc", "calc_sc_1ph", "estimate", "run_contingency"]
 # run_control is not among the calculations of the property: controllers write set-points (tap_pos ...) on purpose
 FLOORS = {"quick": {"nontrivial": 30, "extras": {"injected_runs": 2500, "distinct_crash_points": 1200, "natural_failures": 20, "fault_propagated": 1500},
-                    "tags": {("calc:" + c): 3 for c in CALCS}, "max_skip_frac": 0.5},
+                    "tags": dict({("calc:" + c): 3 for c in CALCS}, dcline=10, dcline_out_of_service=5), "max_skip_frac": 0.5},
           "thorough": {"nontrivial": 1500, "extras": {"injected_runs": 150000}, "tags": {("calc:" + c): 150 for c in CALCS}, "max_skip_frac": 0.5}}
 RULE = ("one case = one (network, calculation) pair: generated or bundled network with dclines / tap-table transformers / trafo3w / "
         "measurements / costs as the calculation needs; the calculation runs once recorded (N function-start events), then with a "
@@ -63,10 +63,24 @@ def _sc_data(net):
         net.sgen["k"] = 1.2
 
 
+def _more_dclines(net, g):
+    """a second dc line and out-of-service dc lines (in any table position)"""
+    cand = [int(b) for b in net.bus.index[(net.bus.vn_kv.values == 20.) & net.bus.in_service.values]]
+    used = set(net.gen.bus) | set(net.ext_grid.bus) | set(net.dcline.from_bus) | set(net.dcline.to_bus) | set(net.xward.bus)
+    cand = [b for b in cand if b not in used]
+    if len(cand) >= 2 and g.B(0.6):
+        a, b = [int(x) for x in g.rng.choice(cand, 2, replace=False)]
+        pp.create_dcline(net, a, b, p_mw=g.R(0.1, 1), loss_percent=g.R(0, 2), loss_mw=g.R(0, 0.02), vm_from_pu=1.0, vm_to_pu=1.0, max_p_mw=5,
+                         min_q_from_mvar=-5, max_q_from_mvar=5, min_q_to_mvar=-5, max_q_to_mvar=5)
+    if len(net.dcline) and g.B(0.5):
+        net.dcline.at[int(g.C(list(net.dcline.index))), "in_service"] = False
+
+
 def build(calc, g, seed):
     """returns (net, fn(net) -> None)"""
     if calc in ("runpp", "runpp_bfsw", "rundcpp", "calc_sc", "run_control"):
         net = netgen.rnd_net(seed, g.C(["full_mix", "transmission", "multi_island"]), {"dcline": 0.7, "tabular": 0.7, "trafo3w": 0.8, "motor": 0.0})
+        _more_dclines(net, g)
         if calc == "calc_sc":
             _sc_data(net)
             kw = {"case": g.C(["max", "min"]), "fault": g.C(["3ph", "2ph"]), "branch_results": g.B(0.5)}
@@ -94,6 +108,12 @@ def build(calc, g, seed):
             b = [int(x) for x in g.rng.choice(net.bus.index, 2, replace=False)]
             pp.create_dcline(net, b[0], b[1], p_mw=g.R(1, 5), loss_percent=g.R(0, 2), loss_mw=g.R(0, 0.1), vm_from_pu=1.01, vm_to_pu=1.02,
                              max_p_mw=20, min_q_from_mvar=-10, max_q_from_mvar=10, min_q_to_mvar=-10, max_q_to_mvar=10)
+            if g.B(0.4):
+                b2 = [int(x) for x in g.rng.choice([x for x in net.bus.index if x not in b], 2, replace=False)]
+                pp.create_dcline(net, b2[0], b2[1], p_mw=g.R(1, 5), loss_percent=1., loss_mw=0.05, vm_from_pu=1.01, vm_to_pu=1.02, max_p_mw=20,
+                                 min_q_from_mvar=-10, max_q_from_mvar=10, min_q_to_mvar=-10, max_q_to_mvar=10, in_service=False)
+                if g.B(0.5):
+                    net.dcline = net.dcline.iloc[::-1]      # the out-of-service dc line first
         net.load["controllable"] = False
         if g.B(0.5):
             i = int(g.C(list(net.load.index)))
@@ -259,5 +279,10 @@ def run_case(seed, tier, case_no):
         v = check_after(before, n3, "%s under natural failure condition '%s' (%s)" % (calc, label, out))
         if v:
             viols.append(v)
-    return common.case(digest, nontrivial=cnt["injected_runs"] >= 10, tags={"calc:" + calc}, violations=viols[:6], sample=sample,
+    tags = {"calc:" + calc}
+    if len(net.dcline):
+        tags.add("dcline")
+        if (~net.dcline.in_service).any():
+            tags.add("dcline_out_of_service")
+    return common.case(digest, nontrivial=cnt["injected_runs"] >= 10, tags=tags, violations=viols[:6], sample=sample,
                        evals=cnt["injected_runs"] + 2, extra=cnt)
